@@ -6,7 +6,7 @@ import ast
 import itertools
 import math
 
-from ..core import (AnalysisError, body_nodes, call_name, dotted, is_self_attr, key_text, kwarg,
+from ..core import (AnalysisError, body_nodes, call_name, dotted, is_self_attr, key_text, kwarg, names_in,
                     params, stmts_of, unparse)
 from ..flow import stale_derived
 from ..normal import inline_temps
@@ -415,6 +415,39 @@ def check_setter_invalidation(prog, rep):
     return n
 
 
+
+# ------------------------------------------------------------------ GEOM-position-space
+def check_position_space(prog, rep):
+    """Site positions are vectors of the EMBEDDING space (`basis.shape[1]` components), which is
+    larger than the number of lattice directions `dim` for a ladder.  Rows that are joined with the
+    `unit_cell_positions` of an existing lattice must be allocated with its number of columns."""
+    m = prog.module(LAT)
+    n = 0
+    for q, f in sorted(m.functions.items()):
+        allocs = {}
+        for st in ast.walk(f):
+            if isinstance(st, ast.Assign) and len(st.targets) == 1 and isinstance(
+                    st.targets[0], ast.Name) and isinstance(st.value, ast.Call) and unparse(
+                        st.value.func) in ('np.zeros', 'np.empty', 'np.ones') and st.value.args and \
+                    isinstance(st.value.args[0], ast.Tuple) and len(st.value.args[0].elts) == 2:
+                allocs[st.targets[0].id] = st
+        for v, st in allocs.items():
+            joined = [x for x in ast.walk(f) if isinstance(x, ast.BinOp) and isinstance(x.op, ast.Add)
+                      and 'unit_cell_positions' in unparse(x) and v in names_in(x)]
+            if not joined:
+                continue
+            n += 1
+            cols = unparse(st.value.args[0].elts[1])
+            ok = not cols.endswith('.dim') and cols != 'dim'
+            rep.instance('GEOM-position-space', {'function': q, 'rows': v, 'columns': cols})
+            if not ok:
+                rep.violation('GEOM-position-space', m, q, 'lattice-dim-columns:' + v,
+                              '`%s` is allocated with `%s` columns and joined with '
+                              'unit_cell_positions, whose rows have basis.shape[1] components '
+                              '(2 for a Ladder with dim == 1)' % (v, cols), st.lineno)
+    return n
+
+
 def run(prog, rep, tier):
     rep.rule('GEOM-neighbors', 'for every lattice class with literal basis / positions / pair '
              'lists: all pairs of a category have one Euclidean length, category k is the k-th '
@@ -434,6 +467,9 @@ def run(prog, rep, tier):
     if check_derived_refresh(prog, rep) < 2:
         raise AnalysisError('GEOM-derived-refresh: writers of HelicalLattice._N_cells not found')
     check_box_corner(prog, rep)
+    rep.rule('GEOM-position-space', 'rows joined with unit_cell_positions have the embedding dimension')
+    if check_position_space(prog, rep) < 1:
+        raise AnalysisError('GEOM-position-space: default add_positions of IrregularLattice not found')
     rep.rule('SETTER-invalidate', 'a property setter that replaces the base setter drops every cache '
              'the base setter drops')
     if check_setter_invalidation(prog, rep) < 2:
